@@ -10,6 +10,9 @@ CORR_VO = 'Corr/C13.vo'
 RULE = ('T2: Percent.quote/unquote, FormURLEncoded/QueryString encode/decode evaluated by the Gallina model (vm_compute) '
 	'and by the implementation on the same inputs: every single octet x every named safe set, random 2-octet and longer strings, '
 	'escape-dense decoder inputs, the escape/octet interaction family (for octet XX: %XX, %xx, %25XX, %2525, %%XX, %XX%XX next to the octet 0xXX itself; every safe set, form codec, QueryString, URI.query; quick tier: 32 octet values incl. % + space / & = ; 00 0f 7f 80 ff, thorough: all 256), pair lists over Unicode incl. delimiters for UTF-8 and ISO-8859-1; oracle: round trips on the real code. '
+	'Wave-3 classes: call sequences in one process (the same text / octets through both charsets, both pair codecs and every octet set in every order, repeated calls compared; one URI object whose query is set by pairs / dict / query_string / parse() / __init__, read twice, copied, with a second object in between, compared with a new object); '
+	'non-normalised and look-alike text in names and values; lengths 11..8192 (65535/65536) of octet strings, escape runs, names, values and numbers of pairs; every bytes-valued set of Percent and both UNQUOTED sets read at run time, all 22x22 escape spellings against an independent decoder, every usual alias of the two charsets in several letter cases and the default charset; '
+	'degenerate names / values / pair lists and every decoder input of <= 3 separator symbols; octets and pairs re-written by an independent sender (lower / mixed-case hex, needless escapes, %20 for +, n= for n, stray &) decoded by Percent.unquote, both codecs, URI(b"...?q").query and the query_string attribute. '
 	'non-trivial = distinct (kind, input) whose output differs from its input or is an error')
 EXHAUSTIVE = {'quick': False, 'thorough': False}
 TRUSTED = ['harness/gen_tables.py t_percent (T1: masks of the Percent.* sets, HEX_MAP, QueryString.INVALID, escape-width probe)',
@@ -239,11 +242,360 @@ def gen_cases(rng, tier):
 		n = rng.randint(0, 14)
 		d = bytes(rng.choice(b'&&==++%%% ab012cCfF\xe4\xc3\xa4\x00\x7f\x1f') for _ in range(n))
 		cases.append({'k': 'form_dec', 'qs': rng.random() < 0.5, 'cs': rng.choice(['UTF-8', 'ISO8859-1']), 'd': d.hex()})
+	cases.extend(_gen_classes(rng, big))
 	return cases
 
 
+# ---------------------------------------------------------------- the six classes of DESIGN section 8 (wave-3 strengthening)
+# text that NFC / NFD / NFKC / NFKD, lower() or casefold() would change, astral characters
+NORM = ['e\u0301', 'A\u030a', '\u00c5', '\u2126', '\u212a', '\u212b', '\u00e9', 'o\u0308', '\u1100\u1161\u11a8', '\uac01', '\uf900', '\ufa0e', '\U0002f800', '\ufb01', '\u2460', '\uff21',
+	'\u00b5', '\u03bc', '\u1e9b\u0323', 'a\u0323\u0300', 'a\u0300\u0323', '\u0958', '\u0344', '\u0130', '\u0131', '\u017f', '\u1e9e', '\u03c2', '\u01c5', '\U0001f600',
+	'\U0001f468\u200d\U0001f469', '\U00010400', '\u00df', '\u0660', '\uff06', '\uff1d', '\uff0b', '\uff05', '\ufe6a', '\u00a0', '\u3000', '\u037e', '\uff1b', '\u00aa', '\u00b2', '\u00bd']
+LENS = [11, 12, 75, 76, 255, 256, 1023, 1024, 4095, 4096, 8190, 8191, 8192]
+DEGEN = ['', ' ', '  ', '&', '&&', '=', '==', '+', '++', '%', '%%', '%2', '%%41', '%+', '+%', ';', ';;', ',', '"', '""', '"a', "'", '(', '[', ']', '<', '\\', ' a', 'a ', ' a ', '\u00a0', '\u00a0a\u00a0', '=&', '&=', '&a', 'a&', '=a', 'a=', 'a=b', 'a&b=c',
+	'+a', 'a+', '?', '#', '/', '//', '%20', '%26', '%3D', '%2B', '%25', '%00', 'a%', '%a', '%zz', '%u00e4', '\u00ad', '\u00ff', '\u0080', '\u009f']
+CHARSETS_UTF8 = ['UTF-8', 'utf-8', 'utf8', 'UTF8', 'Utf-8', 'utf_8', 'U8', 'u8', 'UTF', 'cp65001']
+CHARSETS_L1 = ['ISO8859-1', 'iso8859-1', 'ISO-8859-1', 'iso-8859-1', 'Iso-8859-1', 'latin-1', 'Latin-1', 'LATIN1', 'latin1', 'latin_1', 'L1', 'l1', 'cp819', 'iso_8859_1', '8859', None]
+COQ_OCTET_LIMIT = 600    # inputs longer than this stay oracle-only (the observation repeats them up to three times in the literal)
+
+
+def _percent_sets():
+	"""every octet set the tree's Percent class and the two pair codecs define, read at run time: name -> octets"""
+	Percent, Form, QS = _impl()
+	out = []
+	for name in sorted(vars(Percent)):
+		v = getattr(Percent, name)
+		if isinstance(v, (bytes, bytearray)) and not name.startswith('_'):
+			out.append((name if name in SAFE_NAMES else bytes(v).hex(), name))
+	for codec in (Form, QS):
+		out.append((bytes(codec.UNQUOTED).hex(), codec.__name__ + '.UNQUOTED'))
+	return out
+
+
+def _fill(f, n):
+	return (f * (n // len(f) + 1))[:n]
+
+
+def _gen_classes(rng, big):
+	out = []
+	Percent, Form, QS = _impl()
+	sets = [sname for sname, _ in _percent_sets()] + ['DEFAULT', '']
+	# (4) registries: every octet set the tree defines (not only the seven named in the statement), every spelling of every escape in HEX_MAP,
+	#     every usual alias of the two charsets in several letter cases (and the codecs' default charset)
+	for sname in sets:
+		if sname in SAFE_NAMES or sname in ('DEFAULT', ''):
+			continue   # (covered octet by octet above)
+		for c in range(256):
+			out.append({'k': 'quote', 'safe': sname, 'd': '%02x' % c})
+			out.append({'k': 'rt_quote', 'safe': sname, 'd': '%02x' % c})
+	hexd = '0123456789ABCDEFabcdef'
+	keys = [(a + b).encode('ascii') for a in hexd for b in hexd]
+	keys += [k for k in sorted(Percent.HEX_MAP) if bytes(k) not in keys]
+	for key in keys:
+		key = bytes(key)
+		for d in (b'%' + key, b'a%' + key + b'b', b'%' + key + b'%' + key, b'%25' + key):
+			out.append({'k': 'unq_hex', 'd': d.hex()})
+		out.append({'k': 'form_dec', 'qs': False, 'cs': 'ISO8859-1', 'd': (b'n=%' + key + b'&%' + key + b'=v').hex()})
+	texts = ['\u00e4', 'a b+c', '\u00ff&=\u00e9', '%e4', 'x']
+	for cs in CHARSETS_UTF8 + CHARSETS_L1:
+		try:
+			'\u00e4'.encode(cs or 'ascii', 'replace')
+		except LookupError:
+			continue   # an alias this Python does not know
+		for t in texts + ([] if cs in CHARSETS_L1 else ['\u20ac\U0001f600']):
+			for qs in (False, True):
+				out.append({'k': 'rt_form', 'qs': qs, 'cs': cs, 'ps': [[t, 'v'], ['n', t]]})
+				out.append({'k': 'form_enc', 'qs': qs, 'cs': cs, 'ps': [[t, t]]})
+			out.append({'k': 'form_dec', 'qs': cs in CHARSETS_UTF8, 'cs': cs, 'd': b'%e4=%C3%A4&a+b=%c3%a4%E4'.hex()})
+	# (2) normalisation forms and look-alikes in names and values, for every pair codec; their octets under every octet set
+	for t in NORM:
+		for ps in ([[t, 'v']], [['n', t]], [[t, t]], [['a' + t, t + 'b'], [t + t, '']]):
+			for qs in (False, True):
+				out.append({'k': 'rt_form', 'qs': qs, 'cs': 'UTF-8', 'ps': ps})
+				out.append({'k': 'rt_form', 'qs': qs, 'cs': 'ISO8859-1', 'ps': ps})   # (skipped by observe when not encodable)
+			out.append({'k': 'form_enc', 'qs': len(out) % 2 == 0, 'cs': 'UTF-8', 'ps': ps})
+			out.append({'k': 'rt_query', 'ps': ps})
+		for sname in SAFE_NAMES + ['DEFAULT']:
+			out.append({'k': 'rt_quote', 'safe': sname, 'd': t.encode('utf-8').hex()})
+	# (3) lengths at and around the usual limits: octet strings under every set, escapes to decode, names, values, numbers of pairs
+	fills = [b'a', b'\xff', b'%', b'a\xe4 ', b'%41', b'/', b'~\x10']
+	for n in LENS + ([16383, 16384, 65535, 65536] if big else []):
+		for sname in SAFE_NAMES + ['DEFAULT', '']:
+			for f in (fills if big else rng.sample(fills, 3)):
+				d = _fill(f, n)
+				out.append({'k': 'rt_quote', 'safe': sname, 'd': d.hex()})
+				if n <= COQ_OCTET_LIMIT:
+					out.append({'k': 'quote', 'safe': sname, 'd': d.hex()})
+		for f in (b'%41', b'%', b'a', b'%e4%', b'%2', b'%25'):
+			if n <= COQ_OCTET_LIMIT * 2:
+				out.append({'k': 'unquote', 'd': _fill(f, n).hex()})
+		for f in ('a', ' ', '&', '=', '+', '%', '\u00e4', '\U0001f600'):
+			for cs in ('UTF-8', 'ISO8859-1'):
+				if ord(f) > 255 and cs != 'UTF-8':
+					continue
+				qs = rng.random() < 0.5
+				out.append({'k': 'rt_form', 'qs': qs, 'cs': cs, 'ps': [['n', f * n]]})
+				out.append({'k': 'rt_form', 'qs': not qs, 'cs': cs, 'ps': [[f * n, 'v'], ['m', '']]})
+			out.append({'k': 'rt_query', 'ps': [[f * n, f * n]]})
+		if n <= 4096:
+			ps = [[rng.choice(['a', 'b', '\u00e4', '&']), rng.choice(['', 'v', ' ', '='])] for _ in range(n)]
+			out.append({'k': 'rt_form', 'qs': False, 'cs': 'UTF-8', 'ps': ps})
+			out.append({'k': 'rt_form', 'qs': True, 'cs': 'ISO8859-1', 'ps': ps})
+			out.append({'k': 'rt_query', 'ps': ps})
+	if not big:
+		for n in (65535, 65536):
+			out.append({'k': 'rt_quote', 'safe': rng.choice(SAFE_NAMES), 'd': _fill(rng.choice(fills), n).hex()})
+			out.append({'k': 'rt_form', 'qs': n % 2 == 0, 'cs': 'UTF-8', 'ps': [['n', '\u00e4' * n]]})
+			out.append({'k': 'rt_query', 'ps': [['a' * n, ' ' * n]]})
+	# (5) degenerate names and values: empty, blanks only, separators only, doubled separators, unbalanced quotes, broken escapes
+	for d in DEGEN:
+		for ps in ([['n', d]], [[d, 'v']] if d else [['n', d], ['m', d]], [[d or 'n', d]], [['a', 'b'], [d or 'n', d], ['c', 'd']], [[d or 'n', d]] * 2):
+			for qs in (False, True):
+				for cs in ('UTF-8', 'ISO8859-1'):
+					out.append({'k': 'rt_form', 'qs': qs, 'cs': cs, 'ps': ps})
+			out.append({'k': 'form_enc', 'qs': len(out) % 2 == 0, 'cs': 'UTF-8', 'ps': ps})
+			out.append({'k': 'rt_query', 'ps': ps})
+	for ps in ([], [['a', '']], [['a', '']] * 3, [['a', 'b']] * 2, [['a', '1'], ['b', '2'], ['a', '3']], [['b', ''], ['a', '']], [['a', 'a=a'], ['a=a', 'a']]):
+		for qs in (False, True):
+			out.append({'k': 'rt_form', 'qs': qs, 'cs': 'UTF-8', 'ps': ps})
+		out.append({'k': 'rt_query', 'ps': ps})
+	import itertools
+	alpha = [b'&', b'=', b'+', b'%', b'a', b' ', b'2', b'0', b';']
+	for n in range(0, 5 if big else 4):   # every decoder input of up to 3 (thorough: 4) symbols over the separators (model vs implementation)
+		for tup in itertools.product(alpha, repeat=n):
+			d = b''.join(tup)
+			out.append({'k': 'form_dec', 'qs': len(out) % 2 == 0, 'cs': 'UTF-8', 'd': d.hex()})
+	# (1) statefulness: the codecs are class-level; what can carry state is a memo in a class and a URI object whose query is set and read repeatedly
+	out.extend(_gen_sequences(rng, big, sets))
+	# (6) the same octets / pairs written the way another sender would write them (other hex case, more escapes than necessary, %20 for '+',
+	#     'n=' for 'n', stray separators).  The statement speaks of decoding what the library encoded; the decoders are total and modelled on every input.
+	for i in range(4000 if big else 700):
+		d = rbytes(rng, 0, 2 if rng.random() < 0.3 else 20)
+		out.append({'k': 'unq_ref', 'd': d.hex(), 'pol': ('lower', 'all', 'mixed')[i % 3], 'seed': rng.randrange(1 << 30)})
+	for i in range(6000 if big else 1000):
+		cs = rng.choice(['UTF-8', 'ISO8859-1'])
+		ps = [[_rtext_clean(rng, 1, 4, cs != 'UTF-8'), _rtext_clean(rng, 0, 4, cs != 'UTF-8')] for _ in range(rng.randint(0, 4))]
+		if i % 5 == 0 and ps:
+			ps[rng.randrange(len(ps))][rng.randrange(2)] = rng.choice([t for t in NORM + DEGEN[1:] if cs == 'UTF-8' or all(ord(ch) < 256 for ch in t)])
+		via = ('codec', 'codec', 'qs', 'uri', 'uriattr')[i % 5]
+		out.append({'k': 'dec_ref', 'ps': ps, 'cs': 'UTF-8' if via in ('uri', 'uriattr') else cs, 'qs': via != 'codec', 'via': via, 'pol': ('lower', 'all', 'mixed', 'plain')[i % 4], 'seed': rng.randrange(1 << 30)})
+	return out
+
+
+CLEAN = [ch for ch in ALPH if not (len(ch) == 1 and (ord(ch) < 0x20 or ord(ch) == 0x7f))]
+
+
+def _rtext_clean(rng, lo, hi, latin1):
+	"""like rtext, without C0 controls and DEL (known findings D1 / D21 are about them; they have their own cases above)"""
+	out = []
+	for _ in range(rng.randint(lo, hi)):
+		r = rng.random()
+		if r < 0.6:
+			ch = rng.choice(CLEAN)
+		elif r < 0.8:
+			ch = chr(rng.randint(0x20, 0x7e))
+		elif r < 0.9:
+			ch = chr(rng.randint(0x80, 0xff))
+		else:
+			ch = chr(rng.choice([rng.randint(0x100, 0xd7ff), rng.randint(0xe000, 0xffff), rng.randint(0x10000, 0x10ffff)]))
+		if not latin1 or all(ord(x) < 256 for x in ch):
+			out.append(ch)
+	s = ''.join(out)
+	return s if s or lo == 0 else 'n'
+
+
+def _gen_sequences(rng, big, sets):
+	out = []
+	nonascii = ['\u00e4', '\u00ff\u00e9', 'a\u00e4 b', '\u00e9&\u00e9=', '\u00df+', '\u00a0']
+	wide = ['a/b?c:d@e', "!$'()*,;", 'x=y&z', 'p q+r', '/?:@', '~-._']
+	# a memo keyed by text alone: the same pairs through both charsets and both codecs, in every order, and once more at the end
+	for t in nonascii + wide:
+		variants = [{'k': 'rt_form', 'qs': qs, 'cs': cs, 'ps': [[t, 'v'], ['n', t]]} for qs in (False, True) for cs in ('UTF-8', 'ISO8859-1')] + [{'k': 'rt_query', 'ps': [[t, 'v'], ['n', t]]}]
+		for _ in range(6 if big else 3):
+			steps = rng.sample(variants, len(variants))
+			out.append({'k': 'seq', 'steps': steps + [steps[0], dict(steps[1], k='form_enc') if steps[1]['k'] == 'rt_form' else steps[2]]})
+	# ... the same octets under every octet set, in random order, twice
+	for _ in range(120 if big else 40):
+		d = rng.choice([b'a/b?c:d@e+f', b"!$&'()*+,;=", b'%41%', bytes(rng.randrange(0x20, 0x7f) for _ in range(rng.randint(1, 8))), rbytes(rng, 1, 8)])
+		steps = [{'k': 'rt_quote', 'safe': sname, 'd': d.hex()} for sname in rng.sample(sets, len(sets))]
+		steps += [dict(st, k='quote') for st in rng.sample(steps, 4)] + [{'k': 'unquote', 'd': d.hex()}, {'k': 'unquote', 'd': d.hex()}]
+		out.append({'k': 'seq', 'steps': steps})
+	# ... the same octets decoded by both codecs under both charsets (a memo must not carry a result, or the C.2.1 refusal, from one to the other)
+	for _ in range(150 if big else 50):
+		d = rng.choice([b'a=%e4', b'%C3%A4=%c3%a4&b', b'a=%01', b'a=%7f&b=c', b'a+b=c+d', b'a=b;c=d', b'%u00e4=1'] + [bytes(rng.choice(b'&&==++%%% ab012cCfF\xe4\xc3\xa4\x7f\x1f') for _ in range(rng.randint(1, 10)))])
+		variants = [{'k': 'form_dec', 'qs': qs, 'cs': cs, 'd': d.hex()} for qs in (False, True) for cs in ('UTF-8', 'ISO8859-1')]
+		steps = rng.sample(variants, 4)
+		out.append({'k': 'seq', 'steps': steps + [steps[0], steps[1]]})
+	# ... the SAME octets received under both charsets and by both codecs: the pairs expected differ only by the charset (independent expectation per step)
+	for i in range(200 if big else 60):
+		ps8 = [[rng.choice(nonascii + ['\u20ac', 'a', '\u00e9\u00e8']) + _rtext_clean(rng, 0, 2, True), _rtext_clean(rng, 0, 3, True) + rng.choice(nonascii)] for _ in range(rng.randint(1, 3))]
+		ps1 = [[a.encode('utf-8').decode('latin-1'), b.encode('utf-8').decode('latin-1')] for a, b in ps8]
+		pol, seed = ('lower', 'all', 'mixed', 'plain')[i % 4], rng.randrange(1 << 30)
+		variants = [{'k': 'dec_ref', 'ps': ps, 'cs': cs, 'qs': via != 'codec', 'via': via, 'pol': pol, 'seed': seed} for ps, cs in ((ps8, 'UTF-8'), (ps1, 'ISO8859-1')) for via in ('codec', 'qs')]
+		steps = rng.sample(variants, 4)
+		out.append({'k': 'seq', 'steps': steps + [steps[0], {'k': 'dec_ref', 'ps': ps8, 'cs': 'UTF-8', 'qs': True, 'via': 'uriattr', 'pol': pol, 'seed': seed}]})
+	# ... one URI object whose query is set, read, set again (pairs, dict, raw string, parse()), copied; a second object used in between
+	for i in range(1500 if big else 300):
+		ops = []
+		for _ in range(rng.randint(2, 5)):
+			ps = [[_rtext_clean(rng, 1, 3, False), _rtext_clean(rng, 0, 3, False)] for _ in range(rng.randint(0, 3))]
+			if rng.random() < 0.3 and ps:
+				ps[0][rng.randrange(2)] = rng.choice(nonascii + wide + NORM[:8])
+			how = rng.choice(['set', 'set', 'set', 'setdict', 'setqs', 'parse', 'init', 'other', 'copy', 'get'])
+			if how == 'setdict' and len({p[0] for p in ps}) != len(ps):
+				how = 'set'
+			ops.append([how, ps])
+		out.append({'k': 'uq', 'ops': ops})
+	return out
+
+
+def _is_utf8(cs):
+	import codecs
+	return cs is not None and codecs.lookup(cs).name == 'utf-8'
+
+
 def _enc_pairs(ps, cs):
-	return [(a.encode(cs, 'surrogatepass') if cs == 'UTF-8' else a.encode(cs), b.encode(cs, 'surrogatepass') if cs == 'UTF-8' else b.encode(cs)) for a, b in ps]
+	cs = cs or 'ISO8859-1'   # the codecs' default charset
+	return [(a.encode(cs, 'surrogatepass') if _is_utf8(cs) else a.encode(cs), b.encode(cs, 'surrogatepass') if _is_utf8(cs) else b.encode(cs)) for a, b in ps]
+
+
+REF_UNRES = b'abcdefghijklmnopqrstuvwxyzABCDEFGHIJKLMNOPQRSTUVWXYZ0123456789-._~'
+
+
+def _ref_quote(d, pol, seed, form=False):
+	"""percent-encoding written independently of httoop (RFC 3986 2.1/2.3: unreserved octets may be escaped, hex digits in either case)"""
+	import random
+	r = random.Random(seed)
+	out = bytearray()
+	for ch in d:
+		if form and ch == 0x20 and pol != 'all' and (pol == 'plain' or r.random() < 0.5):
+			out += b'+'
+		elif ch in REF_UNRES and pol != 'all' and not (pol == 'mixed' and r.random() < 0.3):
+			out.append(ch)
+		else:
+			h = '%02X' % ch
+			out += b'%' + (h.lower() if pol == 'lower' else ''.join(x.lower() if r.random() < 0.5 else x for x in h) if pol == 'mixed' else h).encode('ascii')
+	return bytes(out)
+
+
+def _ref_form(ps, cs, pol, seed):
+	"""application/x-www-form-urlencoded written by another sender: same pairs, same order"""
+	import random
+	r = random.Random(seed ^ 0x5a5a)
+	fields = []
+	for i, (n, v) in enumerate(_enc_pairs(ps, cs)):
+		f = _ref_quote(n, pol, seed + 2 * i, True)
+		if v or r.random() < 0.5:
+			f += b'=' + _ref_quote(v, pol, seed + 2 * i + 1, True)
+		fields.append(f)
+	sep = lambda: b'&&' if r.random() < 0.1 else b'&'   # noqa: E731  (empty fields are skipped by every form decoder)
+	out = b''
+	for i, f in enumerate(fields):
+		out += (sep() if i else b'') + f
+	if fields and r.random() < 0.15:
+		out = b'&' + out
+	if fields and r.random() < 0.15:
+		out += b'&'
+	return out
+
+
+def _observe_dec_ref(c):
+	Percent, Form, QS = _impl()
+	from httoop import URI
+	from httoop.exceptions import InvalidURI
+	try:
+		e = _ref_form([tuple(p) for p in c['ps']], c['cs'], c['pol'], c['seed'])
+	except UnicodeEncodeError:
+		return {'skip': 'unencodable'}
+	o = {'enc': e.hex()}
+	try:
+		if c['via'] == 'codec':
+			r = Form.decode(e, c['cs'])
+		elif c['via'] == 'qs':
+			r = QS.decode(e, c['cs'])
+		elif c['via'] == 'uri':
+			r = URI(b'/p?' + e).query
+		else:
+			u = URI()
+			u.query_string = e.decode('ascii')
+			r = u.query
+		o['back'] = [list(p) for p in r]
+		o['ps'] = [[a.encode(c['cs'], 'surrogatepass').hex(), b.encode(c['cs'], 'surrogatepass').hex()] for a, b in r]
+	except UnicodeDecodeError:
+		o['err'] = 'unicode'
+	except InvalidURI:
+		o['err'] = 'invalid'
+	return o
+
+
+def _observe_uq(c):
+	"""one URI object whose query is set and read repeatedly; after every step: its query string, the pairs read twice, and the query string a NEW object
+	gives for the pairs it should hold now"""
+	from httoop import URI
+	from httoop.exceptions import InvalidURI
+
+	def fresh_qs(ps):
+		f = URI()
+		f.query = [tuple(p) for p in ps]
+		return f.query_string
+
+	def read(x):
+		try:
+			return [list(p) for p in x.query]
+		except InvalidURI:
+			return {'err': 'invalid'}
+	state = {'u': URI(), 'cur': []}
+	steps = []
+
+	def step(how, ps):
+		return _uq_step(state, how, ps, fresh_qs, read)
+	for how, ps in c['ops']:
+		try:
+			st = step(how, ps)
+		except Exception as exc:
+			steps.append({'how': how, 'err': 'invalid' if isinstance(exc, InvalidURI) else 'escape:%s' % type(exc).__name__, 'msg': str(exc)[:200], 'want': [list(p) for p in ps]})
+			break
+		steps.append(st)
+	return {'steps': steps}
+
+
+def _uq_step(state, how, ps, fresh_qs, read):
+	from httoop import URI
+	u, cur = state['u'], state['cur']
+	st = {'how': how}
+	tps = [tuple(p) for p in ps]
+	if how == 'set':
+		u.query = tps
+		cur = ps
+	elif how == 'setdict':
+		u.query = dict(tps)
+		cur = ps
+	elif how == 'setqs':
+		u.query_string = fresh_qs(ps)
+		cur = ps
+	elif how == 'parse':
+		u.parse(b'/p?' + fresh_qs(ps).encode('utf-8'))
+		cur = ps
+	elif how == 'init':
+		u.__init__(path='/p', query_string=fresh_qs(ps))
+		cur = ps
+	elif how == 'other':
+		v = URI(b'http://h/p?x=y')
+		v.query = tps
+		st['second'] = {'qs': v.query_string, 'back': read(v), 'want': [list(p) for p in ps], 'fresh_qs': fresh_qs(ps)}
+	elif how == 'copy':
+		w = URI(u)
+		st['second0'] = {'qs': w.query_string, 'back': read(w)}
+		w.query = tps
+		st['second'] = {'qs': w.query_string, 'back': read(w), 'want': [list(p) for p in ps], 'fresh_qs': fresh_qs(ps)}
+	state['cur'] = cur
+	st['qs'] = u.query_string
+	st['back'] = read(u)
+	st['back2'] = read(u)
+	st['qs2'] = u.query_string
+	st['want'] = [list(p) for p in cur]
+	st['fresh_qs'] = fresh_qs(cur)
+	return st
 
 
 def observe(c):
@@ -267,6 +619,17 @@ def observe(c):
 				return {'ok': True}
 			except UnicodeDecodeError:
 				return {'ok': False}
+		if k == 'seq':
+			return {'steps': [observe(st) for st in c['steps']]}
+		if k == 'unq_hex':
+			return {'out': Percent.unquote(bytes.fromhex(c['d'])).hex()}
+		if k == 'unq_ref':
+			e = _ref_quote(bytes.fromhex(c['d']), c['pol'], c['seed'])
+			return {'enc': e.hex(), 'out': Percent.unquote(e).hex()}
+		if k == 'dec_ref':
+			return _observe_dec_ref(c)
+		if k == 'uq':
+			return _observe_uq(c)
 		codec = QS if c.get('qs') else Form
 		if k == 'form_enc':
 			ps = [tuple(p) for p in c['ps']]
@@ -279,7 +642,7 @@ def observe(c):
 				r = codec.decode(bytes.fromhex(c['d']), c['cs'])
 			except UnicodeDecodeError:
 				return {'err': 'unicode'}
-			return {'ps': [[a.encode(c['cs']).hex(), b.encode(c['cs']).hex()] for a, b in r]}
+			return {'ps': [[a.encode(c['cs'] or 'ISO8859-1').hex(), b.encode(c['cs'] or 'ISO8859-1').hex()] for a, b in r]}
 		if k == 'rt_form':
 			ps = [tuple(p) for p in c['ps']]
 			try:
@@ -318,6 +681,27 @@ def coq_case(c, o):
 		return None  # oracle-only kinds
 	if str(o.get('err', '')).startswith('escape'):
 		return 'CUtf8 [] false'  # an escaping exception where the model has none: force a disagreement
+	if k in ('seq', 'uq') and 'steps' not in o:
+		return None
+	if k == 'seq':
+		terms = [coq_case(st, so) for st, so in zip(c['steps'], o['steps'])]
+		return [t for t in terms if t is not None] or None
+	if k == 'unq_hex':
+		return 'CUnquote %s %s' % (X(bytes.fromhex(c['d'])), X(bytes.fromhex(o['out'])))
+	if k == 'unq_ref':
+		return 'CUnquote %s %s' % (X(bytes.fromhex(o['enc'])), X(bytes.fromhex(o['out'])))
+	if k == 'dec_ref':
+		if c['via'] == 'uri' or len(o['enc']) > 4 * COQ_OCTET_LIMIT:
+			return None   # (URI.parse re-encodes the query first: a C10 matter)
+		return coq_case({'k': 'form_dec', 'qs': c['qs'], 'cs': c['cs'], 'd': o['enc']}, o)
+	if k == 'uq':
+		terms, seen = [], set()
+		for st in o['steps']:
+			for x in (st, st.get('second')):
+				if x and 'want' in x and 'fresh_qs' in x and repr(x['want']) not in seen and sum(len(a) + len(b) for a, b in x['want']) < COQ_OCTET_LIMIT:
+					seen.add(repr(x['want']))
+					terms.append('CFormEnc true %s %s' % (pairs(_enc_pairs(x['want'], 'UTF-8')), X(x['fresh_qs'].encode('utf-8'))))
+		return terms or None
 	if k == 'quote':
 		return 'CQuote %s %s %s' % (N(_mask(_safe(c['safe']))), X(bytes.fromhex(c['d'])), X(bytes.fromhex(o['out'])))
 	if k == 'unquote':
@@ -333,7 +717,7 @@ def coq_case(c, o):
 			out = 'DInvalid'
 		else:
 			out = '(DOk %s)' % pairs([(bytes.fromhex(a), bytes.fromhex(b)) for a, b in o['ps']])
-		return 'CFormDec %s %s %s %s' % (B(c['qs']), B(c['cs'] == 'UTF-8'), X(bytes.fromhex(c['d'])), out)
+		return 'CFormDec %s %s %s %s' % (B(c['qs']), B(_is_utf8(c['cs'])), X(bytes.fromhex(c['d'])), out)
 	return None
 
 
@@ -342,6 +726,52 @@ def oracle(c, o):
 	if str(o.get('err', '')).startswith('escape') or 'harness_exception' in o:
 		return 'unexpected exception %s' % (o,)
 	if 'skip' in o:
+		return None
+	if k == 'seq':
+		first = {}
+		for i, (st, so) in enumerate(zip(c['steps'], o['steps'])):
+			f = oracle(st, so)
+			if f:
+				return 'step %d of a call sequence (%s): %s' % (i, _seq_text(c, i), f)
+			key = repr(sorted(st.items()))
+			if key in first and o['steps'][first[key]] != so:
+				return 'step %d of a call sequence repeats step %d and gives a different result: %r then %r (%s)' % (i, first[key], o['steps'][first[key]], so, _seq_text(c, i))
+			first.setdefault(key, i)
+		return None
+	if k == 'unq_hex':
+		import urllib.parse
+		want = urllib.parse.unquote_to_bytes(bytes.fromhex(c['d']))
+		if bytes.fromhex(o['out']) != want:
+			return 'unquote(%r) gave %r, every escape spelling must decode: expected %r' % (bytes.fromhex(c['d']), bytes.fromhex(o['out']), want)
+		return None
+	if k == 'unq_ref':
+		if o['out'] != c['d']:
+			return 'the octets %r escaped by another sender as %r decode to %r' % (bytes.fromhex(c['d']), bytes.fromhex(o['enc']), bytes.fromhex(o['out']))
+		return None
+	if k == 'dec_ref':
+		if o.get('err'):
+			return 'the pairs %r written by another sender as %r: decoding (%s) raised %s' % (c['ps'], bytes.fromhex(o['enc']), c['via'], o['err'])
+		if o['back'] != [list(p) for p in c['ps']]:
+			return 'the pairs %r written by another sender as %r decode (%s) to %r' % (c['ps'], bytes.fromhex(o['enc']), c['via'], o['back'])
+		return None
+	if k in ('seq', 'uq', 'dec_ref', 'unq_ref', 'unq_hex') and ('steps' if k in ('seq', 'uq') else 'out' if k != 'dec_ref' else 'enc') not in o:
+		return 'unexpected outcome %s' % (o,)
+	if k == 'uq':
+		for i, st in enumerate(o['steps']):
+			where = 'one URI object, step %d (%s)' % (i, ' / '.join('%s %r' % (h, p) for h, p in c['ops'][:i + 1]))
+			if 'err' in st:
+				return '%s: raised %s %s' % (where, st['err'], st.get('msg'))
+			for name, x in (('', st), ('second object: ', st.get('second'))):
+				if not x:
+					continue
+				if x['back'] != x['want']:
+					return '%s: %sthe query reads back as %r, it should hold %r (query string %r)' % (where, name, x['back'], x['want'], x['qs'])
+				if x['qs'] != x['fresh_qs']:
+					return '%s: %sthe query string is %r, a new object holding the same pairs has %r' % (where, name, x['qs'], x['fresh_qs'])
+			if st['back2'] != st['back'] or st['qs2'] != st['qs']:
+				return '%s: reading the query changed it: %r / %r then %r / %r' % (where, st['qs'], st['back'], st['qs2'], st['back2'])
+			if 'second0' in st and i and (st['second0']['back'] != o['steps'][i - 1]['back'] or st['second0']['qs'] != o['steps'][i - 1]['qs']):
+				return '%s: a copy does not hold what the original holds: %r vs %r' % (where, st['second0'], o['steps'][i - 1]['back'])
 		return None
 	if k == 'rt_quote':
 		d = bytes.fromhex(c['d'])
@@ -374,6 +804,10 @@ def oracle(c, o):
 	return None
 
 
+def _seq_text(c, i):
+	return ' ; '.join('%s %s' % (st['k'], {a: b for a, b in st.items() if a != 'k'}) for st in c['steps'][:i + 1])[:600]
+
+
 def _low_unsafe(data, safe):
 	return any(ch < 0x10 and ch not in safe for ch in data)
 
@@ -381,6 +815,21 @@ def _low_unsafe(data, safe):
 def classify(c, o, fail):
 	Percent, Form, QS = _impl()
 	k = c['k']
+	if k == 'seq':
+		# the failing step decides (a known finding inside a sequence stays that known finding)
+		for st, so in zip(c['steps'], o['steps']):
+			f = oracle(st, so)
+			if f:
+				return classify(st, so, f)
+		return None
+	if k == 'dec_ref':
+		try:
+			enc = b''.join(a + b for a, b in _enc_pairs(c['ps'], c['cs']))
+		except UnicodeEncodeError:
+			return None
+		if c['via'] != 'codec' and o.get('err') == 'invalid' and any(ch < 0x20 or ch == 0x7f for ch in enc):
+			return 'D21-query-c0-controls'
+		return None
 	if k == 'rt_quote':
 		s = _safe(c['safe'])
 		safe = set(Percent.UNRESERVED if s is None else s) - {0x25}
@@ -390,7 +839,10 @@ def classify(c, o, fail):
 		cs = c.get('cs', 'UTF-8')
 		codec = QS if (c.get('qs') or k == 'rt_query') else Form
 		safe = set(codec.UNQUOTED) - {0x25}
-		enc = b''.join(a + b for a, b in _enc_pairs(c['ps'], cs))
+		try:
+			enc = b''.join(a + b for a, b in _enc_pairs(c['ps'], cs))
+		except UnicodeEncodeError:
+			return None   # text the charset cannot express was encoded all the same: never a known finding
 		if _low_unsafe(enc, safe):
 			return 'D1-percent-low-octet'
 		if (k == 'rt_query' or c.get('qs')) and o.get('err') == 'invalid' and any(ch < 0x20 or ch == 0x7f for ch in enc):
@@ -402,6 +854,10 @@ def nontrivial(c, o):
 	if 'skip' in o:
 		return None
 	k = c['k']
+	if k in ('seq', 'uq'):
+		return (k, repr(c.get('steps') or c.get('ops')))
+	if k in ('unq_ref', 'dec_ref'):
+		return (k, c.get('d'), repr(c.get('ps')), c.get('cs'), c.get('via'), c['pol'], c['seed'])
 	if k in ('quote', 'unquote') and o.get('out') == c['d']:
 		return None
 	if k == 'rt_quote' and o.get('enc') == c['d']:
